@@ -35,10 +35,10 @@ def run(ctx, res):
     res.extra["explanation"] = EXPLANATION
     res.assumptions += ["OS scheduling fairness; pthread primitives trusted",
                         "device stop calls return (C18 for the simulated cameras)"]
-    RR.rule_abort_sequence(prog, res)
-    RR.rule_stop_sequence(prog, res)
-    RR.rule_thread_exit(prog, res)
-    RR.rule_start_reset(prog, res)
+    res.guard(RR.rule_abort_sequence, prog, res)
+    res.guard(RR.rule_stop_sequence, prog, res)
+    res.guard(RR.rule_thread_exit, prog, res)
+    res.guard(RR.rule_start_reset, prog, res)
     la = LockAnalysis(prog)
     sites = [s for s in la.wait_sites() if s["fn"].name == "channel_write_map"]
     if not sites:
